@@ -282,15 +282,15 @@ func contextOf(info *types.Info, pm map[ast.Node]ast.Node, n ast.Node, stop ast.
 				} else if t := info.TypeOf(e); t != nil && namedOf(t) != nil && !strings.Contains(exprStr(e), "==") {
 					ls = append(ls, namedOf(t).Obj().Name())
 				} else {
-					ls = append(ls, exprStr(e))
+					ls = append(ls, roleStr(info, e))
 				}
 			}
 			labels = append(labels, strings.Join(ls, "|"))
 		case *ast.IfStmt:
 			if child == ast.Node(x.Body) {
-				guards = append(guards, exprStr(x.Cond))
+				guards = append(guards, roleStr(info, x.Cond))
 			} else if child == x.Else {
-				guards = append(guards, "!("+exprStr(x.Cond)+")")
+				guards = append(guards, "!("+roleStr(info, x.Cond)+")")
 			}
 		}
 	}
